@@ -87,7 +87,7 @@ fn lex(src: &str) -> Option<Vec<Tok>> {
 }
 
 #[derive(Clone, Copy, PartialEq)]
-enum Mode { Comments, BlankLines, Separators }
+enum Mode { Comments, BlankLines, Separators, Continuation, Terminators }
 
 /// Re-print `src`: the text of every token and every gap is kept; at token boundaries comments are
 /// inserted / newlines doubled / `,`-newline and newline separators exchanged.
@@ -95,9 +95,11 @@ fn reprint(rng: &mut Rng, src: &str, toks: &[Tok], mode: Mode, hist: &mut Vec<&'
     let mut out = String::new();
     let mut prev_end = 0usize;
     let mut depth: i32 = 0;
+    let mut let_line = false;
     let mut attribute_line = false; // `#host` etc.: the newline after an attribute is not a statement end
     for (i, t) in toks.iter().enumerate() {
         if t.tag == "Pound" { attribute_line = true; }
+        if t.tag == "Let" || t.tag == "Var" { let_line = true; }
         let lo = t.lo.min(src.len());
         let hi = t.hi.min(src.len());
         let gap = &src[prev_end..lo];
@@ -133,6 +135,17 @@ fn reprint(rng: &mut Rng, src: &str, toks: &[Tok], mode: Mode, hist: &mut Vec<&'
                 out.push_str(text);
                 for _ in 0..rng.below(3) { out.push_str(if rng.chance(1, 3) { "  \n" } else { "\n" }); hist.push("blank-line"); }
             }
+            (Mode::Continuation, "Plus" | "Minus" | "Star" | "Slash" | "Mod" | "Caret" | "EqEq" | "NotEq" | "DotDot" | "And" | "Or" | "Not"
+                | "OpenParen" | "Comma" | "OpenBracket") if next_tag != "Newline" && next_tag != "Eof" && rng.chance(1, 2) => {
+                // a line break (or comment + line break) in front of an operand: skipped at every operand start
+                out.push_str(text);
+                out.push_str(match rng.below(3) { 0 => "\n", 1 => " // c\n", _ => "\n\n   " });
+                hist.push("continuation-line");
+            }
+            (Mode::Continuation, "Eq") if let_line && next_tag != "Newline" && rng.chance(1, 2) => {
+                out.push_str("=\n");
+                hist.push("continuation-after-=");
+            }
             (Mode::Separators, "Comma") if next_tag == "Newline" && rng.chance(1, 2) => {
                 hist.push("comma-newline→newline"); // the newline alone separates the items
             }
@@ -148,8 +161,19 @@ fn reprint(rng: &mut Rng, src: &str, toks: &[Tok], mode: Mode, hist: &mut Vec<&'
             }
             _ => out.push_str(text),
         }
-        if t.tag == "Newline" { attribute_line = false; }
+        if t.tag == "Newline" { attribute_line = false; let_line = false; }
         prev_end = hi.max(prev_end);
+    }
+    if mode == Mode::Terminators {
+        // terminate the LAST top-level item: `;` + line break / comment / blank lines / nothing before EOF
+        let body = out.trim_end_matches(|c: char| c == ' ' || c == '\t' || c == '\n').to_string();
+        let last_tag = toks.iter().rev().map(|t| t.tag.as_str()).find(|t| *t != "Newline" && *t != "Eof").unwrap_or("");
+        if matches!(last_tag, "Ident" | "IntLit" | "FloatLit" | "StringLit" | "CloseParen" | "CloseBracket" | "CloseBrace" | "True" | "False")
+            && !src.trim_end().ends_with("*/") && !body.lines().last().unwrap_or("").contains("//") {
+            let tail = match rng.below(5) { 0 => ";\n", 1 => "; // done\n", 2 => ";\n\n\n", 3 => ";", _ => " ;\n  \n// end" };
+            hist.push(match tail { ";" => "final-semicolon-eof", ";\n" => "final-semicolon-newline", _ => "final-semicolon-comment/blank-lines" });
+            return format!("{body}{tail}");
+        }
     }
     out
 }
@@ -189,6 +213,18 @@ fn gen_program(rng: &mut Rng) -> (String, String) {
             }
         }
     }
+    // items terminated rather than separated: blocks, match arms, parameter/argument/array lists, struct body
+    {
+        let i = stmts.len();
+        let (x, y) = (rng.below(9), rng.below(9));
+        let t = |rng: &mut Rng| -> &'static str { *rng.pick(&[";", ";\n", "; // c\n", ";\n\n"]) };
+        let c = |rng: &mut Rng| -> &'static str { *rng.pick(&[",", ",\n", ", // c\n", ",\n\n  "]) };
+        stmts.push((format!("if true {{ println({x}); println({y}) }}"), format!("if true {{ println({x}){} println({y}){} }}", t(rng), t(rng))));
+        stmts.push((format!("let v{} = match {x} {{ {x} -> {y}, _ -> 0 }}", i + 1), format!("let v{} = match {x} {{ {x} -> {y}{} _ -> 0{} }}", i + 1, c(rng), c(rng))));
+        stmts.push((format!("let v{} = f2({x}, {y})", i + 2), format!("let v{} = f2({x}{} {y}{})", i + 2, c(rng), c(rng))));
+        stmts.push((format!("let v{} = [{x}, {y}]", i + 3), format!("let v{} = [{x}{} {y}{}]", i + 3, c(rng), c(rng))));
+        stmts.push((format!("let v{} = ({x}, {y})", i + 4), format!("let v{} = ({x}{} {y}{})", i + 4, c(rng), c(rng))));
+    }
     let prelude = "fn f1(a) = a\nfn f2(a, b) = a + b\nfn f3(a, b, c) = a + b + c\nfn f4(a, b, c, d) = a + b + c + d\n";
     a.push_str(prelude);
     b.push_str(prelude);
@@ -197,7 +233,12 @@ fn gen_program(rng: &mut Rng) -> (String, String) {
         a.push('\n');
         b.push_str(alt);
         b.push_str(match rng.below(3) { 0 => "\n", 1 => ";\n", _ => "\n\n\n" });
-        if c.starts_with("let") { a.push_str(&format!("println(v{i})\n")); b.push_str(&format!("println(v{i})\n")); }
+        if c.starts_with("let") {
+            a.push_str(&format!("println(v{i})\n"));
+            b.push_str(&format!("println(v{i})"));
+            b.push_str(match rng.below(4) { 0 => "\n", 1 => ";\n", 2 => "; // c\n\n", _ => ";" });
+            if !b.ends_with('\n') && i + 1 < stmts.len() { b.push('\n'); }
+        }
     }
     (a, b)
 }
@@ -222,6 +263,8 @@ fn main() {
     // a few hand-written ones: the D10 shapes, strings containing comment openers, comments containing quotes
     for p in ["let x = 1 /* a * b */ + 2\nprintln(x)\n", "let x = 8 /* a / b */ / 2\nprintln(x)\n",
               "let s = \"/* not a comment */ // neither\"\nprintln(s)\n", "println(1) // trailing \" quote\nprintln(2)\n",
+              "let x = 4\nlet y = 3 + -x * 2\nprintln(y)\nprintln(true and not false)\nprintln(2 * -3 ^ 2)\nprintln(10 - -2 ^ 2)\n",
+              "let x = 4\nlet zs = [-x, -1 ^ 2, (-x), 7 % -x]\nprintln(zs)\nlet b = false\nprintln(not b or not true)\nprintln(f2(-x, -3 % 2))\nfn f2(a, b) = a + -b\n",
               "let t = (1,\n 2,\n 3)\nprintln(t)\n", "fn add(a, b) {\n  a + b\n}\nprintln(add(1,\n2))\n"] {
         progs.push(p.to_string());
     }
@@ -232,13 +275,19 @@ fn main() {
     for p in &progs {
         let Some(toks) = lex(p) else { skipped += 1; continue; };
         for r in 0..rounds {
-            for mode in [Mode::Comments, Mode::BlankLines, Mode::Separators] {
+            for mode in [Mode::Comments, Mode::BlankLines, Mode::Separators, Mode::Continuation, Mode::Terminators] {
                 if mode != Mode::Comments && r >= (rounds + 1) / 2 { continue; }
                 let mut what = vec![];
                 let v = reprint(&mut ctx.rng, p, &toks, mode, &mut what);
                 if v != *p { jobs.push(Job { orig: p.clone(), variant: v, mode, what }); }
             }
         }
+    }
+    // D85 (7fe8312): an operand on a continuation line may start with a prefix operator / negative literal
+    for (one, two) in [("println(3 + -2 ^ 2)\n", "println(3 +\n -2 ^ 2)\n"), ("let x = 5\nprintln(3 + -x)\n", "let x = 5\nprintln(3 +\n -x)\n"),
+                       ("let b = false\nprintln(true and not b)\n", "let b = false\nprintln(true and // c\n\n not b)\n"),
+                       ("let x = 4\nlet r = -x * 2\nprintln(r)\n", "let x = 4\nlet r =\n -x * 2\nprintln(r)\n")] {
+        jobs.push(Job { orig: one.to_string(), variant: two.to_string(), mode: Mode::Continuation, what: vec!["continuation-D85-probe"] });
     }
     let n_gen = if quick { 150 } else { 2000 };
     for _ in 0..n_gen {
@@ -257,7 +306,8 @@ fn main() {
 
     for (j, (k0, k1, out1)) in jobs.iter().zip(results) {
         for w in &j.what { ctx.count(w); }
-        ctx.count(match j.mode { Mode::Comments => "variant:comments", Mode::BlankLines => "variant:blank-lines", Mode::Separators => "variant:separators" });
+        ctx.count(match j.mode { Mode::Comments => "variant:comments", Mode::BlankLines => "variant:blank-lines", Mode::Separators => "variant:separators",
+            Mode::Continuation => "variant:continuation-lines", Mode::Terminators => "variant:terminators" });
         let out0 = &orig_out[&j.orig];
         ctx.count(&format!("outcome:{}", out0.split(':').next().unwrap_or("")));
         if j.mode == Mode::Comments && kinds_only(&k0) != kinds_only(&k1) {
@@ -267,6 +317,49 @@ fn main() {
             ctx.spec_fail(format!("re-printed program behaves differently: original {:?} → `{out0}`, variant {:?} → `{out1}`", j.orig, j.variant));
         }
         ctx.case(format!("lexkinds {} #{}", hex_str(&j.variant), j.what.first().copied().unwrap_or("none")), k1);
+    }
+    // ---- top-level separator family: items, `;` and line breaks in every order; the verdict
+    //      (accepted / rejected) is compared with the model of parse_file's item loop, so that a change
+    //      which accepts MORE (a stray `;`) is seen as well as one which accepts less
+    let mut seqs: Vec<Vec<&'static str>> = vec![
+        vec!["i", ";"], vec!["i", ";", "nl"], vec!["i", ";", "nl", "nl", "nl"], vec!["i", "nl", "i", ";", "nl"], vec!["i", ";", "i", ";"],
+        vec![";"], vec![";", "i"], vec!["nl", ";", "i"], vec!["i", ";", ";"], vec!["i", "nl", ";", "nl", "i"], vec!["i", ";", "nl", ";"],
+        vec!["i", "i"], vec![], vec!["nl", "nl"], vec!["i", ";", "nl", "i", "nl", ";"],
+    ];
+    let n_seq = if quick { 400 } else { 4000 };
+    for _ in 0..n_seq {
+        let n = 1 + ctx.rng.below(8);
+        seqs.push((0..n).map(|_| *ctx.rng.pick(&["i", "i", ";", "nl", "nl"])).collect());
+    }
+    struct SJob { words: Vec<&'static str>, src: String, expect_out: String }
+    let sjobs: Vec<SJob> = seqs.into_iter().map(|ws| {
+        let mut src = String::new();
+        let mut out = String::new();
+        let mut k = 0;
+        for (i, w) in ws.iter().enumerate() {
+            match *w {
+                "i" => { k += 1; src.push_str(&format!("println({k})")); out.push_str(&format!("{k}\n")); }
+                ";" => src.push_str(if ctx.rng.chance(1, 2) { ";" } else { " ; " }),
+                _ => src.push_str(if ctx.rng.chance(1, 3) { " // c ; \n" } else { "\n" }),
+            }
+            if ws.get(i + 1) == Some(&"i") && *w == "i" { src.push(' '); }
+        }
+        SJob { words: ws, src, expect_out: out }
+    }).collect();
+    let sres = par_map(&sjobs, |j| outcome(&j.src));
+    for (j, got) in sjobs.iter().zip(sres) {
+        ctx.count("family:toplevel-separators");
+        let verdict = if got.starts_with("done:") { "accept" } else if got == "rejected" { "reject" } else { "other" };
+        ctx.count(&format!("toplevel:{verdict}"));
+        if verdict == "accept" && got != format!("done:{}", j.expect_out) {
+            ctx.spec_fail(format!("top-level program {:?} printed `{got}`, its items print {:?}", j.src, j.expect_out));
+        }
+        // spellings in which every `;` directly follows an item must be accepted (C29_toplevel_terminator)
+        let well_formed = j.words.iter().enumerate().all(|(i, w)| *w != ";" || (i > 0 && j.words[i - 1] == "i"));
+        if well_formed && verdict != "accept" {
+            ctx.spec_fail(format!("the optional `;` after an item changed the verdict: {:?} is `{got}`", j.src));
+        }
+        ctx.case(format!("toplevel {} #{}", j.words.join(" "), if well_formed { "terminators" } else { "stray-semicolon" }), verdict.to_string());
     }
     ctx.finish();
 }
